@@ -52,7 +52,7 @@ PROPS = {
                 families=_fam([('kleene', 9000), ('group11', 2000), ('ctx', 3000)], [('kleene', 200000), ('group11', 30000), ('ctx', 0)]),
                 spec=lambda l: l['entry'] in ('query', 'match'), tags=['C11']),
     'C12': dict(title='comparisons impose one consistent order',
-                families=_fam([('cmp', 12000), ('group12', 1)], [('cmp', 100000), ('group12', 3)]),
+                families=_fam([('cmp', 40000)], [('cmp', 0)]),
                 spec=lambda l: l['entry'] == 'query', tags=['C12']),
     'C13': dict(title='arithmetic is exact or fails loudly',
                 families=_fam([('math', 9000)], [('math', 120000)]),
@@ -66,6 +66,12 @@ PROPS = {
     'C16': dict(title='item methods',
                 families=_fam([('meth', 9000)], [('meth', 0)]),
                 spec=lambda l: l['entry'] == 'query', tags=['C16']),
+    'C17': dict(title='datetime methods (executor-model leg)',
+                families=_fam([('dt', 6000)], [('dt', 0)]),
+                spec=lambda l: True, tags=['C17']),
+    'C18': dict(title='datetime values (executor-model leg)',
+                families=_fam([('dt', 3000)], [('dt', 40000)]),
+                spec=lambda l: True, tags=['C18']),
     'C20': dict(title='cancellation',
                 families=_fam([('cancel', 60)], [('cancel', 1200)]),
                 spec=lambda l: False, tags=['C20']),
@@ -172,8 +178,11 @@ def proof_leg(prop, log):
         res['ok'] = False
         res['problems'].append('Coq Makefile missing: run bin/setup')
         return res
-    r = sh('flock %s timeout 3000 make -j16' % os.path.join(BUILD, '.lock'), cwd=coq)
-    res['checker_cmd'] = 'bin/gen-tables && (cd coq && coq_makefile -f _CoqProject -o Makefile && make -j16) && coqc -Q coq SJ coq/props/%s.v  # Coq 8.16.1, full .vo build; Print Assumptions audited' % prop
+    # build what this property needs: its theorem file (and, through dependencies, the model, the specification,
+    # the lemma files and the generated tables it rests on) and the files the extracted model is made from
+    targets = 'props/%s.vo extract/Api.vo extract/Instance.vo proofs/PropGlue.vo' % prop
+    r = sh('flock %s timeout 3000 make -j16 %s' % (os.path.join(BUILD, '.lock'), targets), cwd=coq)
+    res['checker_cmd'] = 'bin/gen-tables && (cd coq && make -j16 props/%s.vo extract/Api.vo proofs/PropGlue.vo) && coqc -Q coq SJ coq/props/%s.v  # Coq 8.16.1, full .vo build of the theorem file and everything it depends on; Print Assumptions audited' % (prop, prop)
     log.append('make: rc=%d %.1fs tables_changed=%s' % (r.returncode, time.time() - t0, tables_changed))
     if r.returncode != 0:
         res['ok'] = False
@@ -214,7 +223,7 @@ def proof_leg(prop, log):
     axioms = set()
     for blk in re.findall(r'Axioms:\n((?:[^\n]*\n)*?)(?=(?:Closed under|Axioms:|\Z))', out + '\n'):
         for l in blk.splitlines():
-            m = re.match(r'^([A-Za-z_][\w.\']*)\s*:', l)
+            m = re.match(r'^([A-Za-z_][\w.\']*)(\s*:|\s*$)', l)
             if m:
                 axioms.add(m.group(1))
     res['axioms'] = sorted(axioms)
@@ -636,3 +645,46 @@ def assumptions(prop):
         'keyvalue() ids are compared up to renaming by first occurrence',
         'error values are compared by class (ErrVerbose / ErrExecution / ErrInvalid / cancellation / NULL), never by message text',
     ]
+
+
+def extra_exec_leg(prop, tier, seed, log):
+    """Run the generic executor harness/driver families configured for [prop] (used by the checks that have
+    their own main machinery, e.g. C17/C18) and return (ties, violations, known_seen, totals, replay_path)."""
+    cfg = PROPS[prop]
+    findings = load_findings()
+    known_classes = {f['class']: f for f in findings if f.get('status') == 'open' and prop in f.get('properties', [])}
+    err = rebuild_driver_if_stale(log)
+    if err:
+        return [{'kind': 'BUILD', 'text': err}], [], {}, {}, None
+    herr = build_harness(log)
+    if herr:
+        return [{'kind': 'BUILD', 'text': herr}], [], {}, {}, None
+    ties, viol, seen, totals, sexps = [], [], {}, {}, {}
+    for fam, n in cfg['families'][tier]:
+        lines, summary, sexp = run_family(prop, fam, n, seed, log, tag='_x')
+        sexps[fam] = sexp
+        for k, v in summary.items():
+            totals[k] = totals.get(k, 0) + v
+        for l in lines['TIE'] + lines['POLLS']:
+            l['_fam'] = fam
+            ties.append(l)
+        for l in lines['SPEC'] + [x for x in lines['PROP'] if x.get('tag') in cfg['tags']]:
+            l['_fam'] = fam
+            cls = l.get('class', 'NONE')
+            parts = cls.split('+') if cls != 'NONE' else []
+            if parts and all(p in known_classes for p in parts):
+                for p in parts:
+                    seen.setdefault(p, l)
+            else:
+                viol.append(l)
+    replay_path = None
+    pick = (sorted(viol, key=lambda l: len(l.get('text', ''))) or ties or [None])[0]
+    if pick is not None:
+        case = case_inputs(sexps.get(pick.get('_fam'), ''), [pick.get('id')]).get(str(pick.get('id')), '')
+        replay_path = write_replay(prop, 'failing-input' if viol else 'unchecked-obligation', {
+            'property': prop, 'kind': 'failing-input' if viol else 'unchecked-obligation', 'seed': seed, 'tier': tier,
+            'leg': 'executor model (model/Exec.v extracted) and specification vs the implementation, family dt',
+            'finding': {k: pick.get(k) for k in ('kind', 'tag', 'entry', 'silent', 'class', 'impl', 'spec', 'model', 'detail', 'text', 'family', 'id')},
+            'input': replay_input(case), 'observed_case': case[:4000],
+            'how_to_replay': 'bin/check %s --replay <this file>' % prop})
+    return ties, viol, seen, totals, replay_path
